@@ -227,13 +227,13 @@ def judge_payload(ctx, case, payload, expect_reject, b, canary, label):
       raise _Stop()
     # 2. pickle listener
     rec = env.Recorder(b.events.metricReceived)
-    lst = wire.Listener('pickle')
+    lst = wire.Listener('pickle', tolerate_connect_failure=bool(case.get('broken_connect')))
     lst.feed(pkl.int32_frame(payload))
     got = list(rec.items)
     rec.detach()
     lst.close()
     # 3. cache query port
-    q = wire.Listener('query')
+    q = wire.Listener('query', tolerate_connect_failure=bool(case.get('broken_connect')))
     q.feed(pkl.int32_frame(payload))
     answered = q.transport.value()
   except _Stop:
@@ -316,6 +316,10 @@ def execute(ctx, case):
     raise HarnessError('USE_INSECURE_UNPICKLER default is not off')
   if case.get('conf') is not None:
     b.settings['USE_INSECURE_UNPICKLER'] = resolve_conf(b, case['conf'])
+  if case.get('broken_connect'):
+    # a carbon.conf mistake that makes connectionMade() raise half-way (the idle timeout written as '5m'): the
+    # connection stays open, whatever it was set up with so far decodes the frames
+    b.settings['METRIC_CLIENT_IDLE_TIMEOUT'] = '5m'
   kind = case['kind']
   if kind == 'global':
     module, name, route, nesting, proto = case['module'], case['name'], case['route'], case['nesting'], case['proto']
@@ -334,7 +338,7 @@ def execute(ctx, case):
       ctx.note(case, nontrivial=reaches_global_opcode(payload),
                classes=['route:' + route, 'nesting=%d' % nesting] + (['allow-listed pair'] if allowed else []) + (
                  ['option resolved from carbon.conf sections'] if case.get('conf') else []),
-               key=[route, module, name, nesting, proto] + ([case['conf']['main'], case['conf']['inst']] if case.get('conf') else []))
+               key=[route, module, name, nesting, proto] + ([case['conf']['main'], case['conf']['inst']] if case.get('conf') else []) + (['broken-connect'] if case.get('broken_connect') else []))
     return ok
   if kind == 'raw':
     payload = bytes.fromhex(case['hex'])
@@ -452,6 +456,9 @@ def run(ctx):
       for (m, a) in CANARY_TARGETS[:4]:
         for route in ROUTES[:3]:
           execute(ctx, {'kind': 'global', 'module': m, 'name': a, 'route': route, 'nesting': 1, 'proto': 2, 'conf': layout})
+    for (m, a) in CANARY_TARGETS[:6]:
+      for route in ROUTES[:4]:
+        execute(ctx, {'kind': 'global', 'module': m, 'name': a, 'route': route, 'nesting': 1, 'proto': 2, 'broken_connect': True})
     for code in (240, 60000, 70000):
       for call in (False, True):
         for nesting in range(0, 5):
